@@ -41,12 +41,15 @@ pub fn create_generator(validation_library: Option<String>) -> Box<dyn BindingsG
 /// filtering unused code and collecting only the types needed for generation.
 pub struct TypeCollector {
     pub known_structs: HashMap<String, StructInfo>,
+    /// Names replaced by a configured type mapping; they are neither emitted nor expanded
+    pub mapped_types: std::collections::HashSet<String>,
 }
 
 impl TypeCollector {
     pub fn new() -> Self {
         Self {
             known_structs: HashMap::new(),
+            mapped_types: std::collections::HashSet::new(),
         }
     }
 
@@ -90,7 +93,7 @@ impl TypeCollector {
         // Filter to only include used types
         all_structs
             .iter()
-            .filter(|(name, _)| used_types.contains(*name))
+            .filter(|(name, _)| used_types.contains(*name) && !self.mapped_types.contains(*name))
             .map(|(k, v)| (k.clone(), v.clone()))
             .collect()
     }
@@ -110,6 +113,11 @@ impl TypeCollector {
                 continue;
             }
             processed.insert(type_name.clone());
+
+            // A mapped type is replaced wholesale, so its fields are not dependencies
+            if self.mapped_types.contains(&type_name) {
+                continue;
+            }
 
             if let Some(struct_info) = all_structs.get(&type_name) {
                 for field in &struct_info.fields {
